@@ -30,6 +30,15 @@ THEOREMS = [
     "Mesa.Viz.C20_layer_image_orientation",
     "Mesa.Viz.C20_layer_hex_orientation",
     "Mesa.Viz.C20_V8_ravel_refuted",
+    "Mesa.Viz.C20_layer_level_bounds",
+    "Mesa.Viz.C20_layer_level_monotone",
+    "Mesa.Viz.C20_layer_level_determines_value",
+    "Mesa.Viz.C20_layer_auto_range",
+    "Mesa.Viz.C20_layer_cells_show_their_values",
+    "Mesa.Viz.C20_layers_drawn_are_the_requested_ones",
+    "Mesa.Viz.C20_layers_refused",
+    "Mesa.Viz.C20_V13_range_without_extent",
+    "Mesa.Viz.C20_layer_color_modes_agree_in_range",
     "Mesa.Viz.C20_check_accepts_iff_binds_by_keyword",
     "Mesa.Viz.C20_check_refuses_var_positional",
     "Mesa.Viz.C20_split_lossless_disjoint",
@@ -38,6 +47,7 @@ THEOREMS = [
 COUNTS = {"quick": 1600, "thorough": 60000}
 TRUSTED = [
     "matplotlib: Axes.scatter stores the x/y/s/c/marker/zorder/alpha/edgecolors/linewidths it is given in one PathCollection (read back through get_offsets/get_sizes/get_facecolors/get_edgecolors/get_linewidths/get_zorder/get_paths); slot i of a keyword array belongs to marker i (the model's `Group.drawn`); a marker whose alpha / edge colour / line width is the filled-in default (own colour's alpha, face colour, rcParams patch.linewidth) reads back like one drawn without the keyword; colour-name conversion, marker rendering, imshow(origin='lower') putting array row r at height r",
+    "matplotlib, property layers: imshow(origin='lower') keeps the array, vmin / vmax / alpha / cmap it is given (read back through get_array, norm, get_alpha, get_cmap); a colormap maps level k/span to a colour of its own (the level behind a hexagon's colour is searched among the multiples of 1/span); Colorbar widens a range without extent by nonsingular(expander=0.1) (undone when read back) and does what it likes with an inverted range (not compared); the colour of a name (to_rgba)",
     "Altair: Chart.to_dict() reports the rows given to alt.Data(values=...) unchanged",
     "solara/reacton: solara.render runs the component function and its effects once (used for SpaceMatplotlib, SpaceAltair, ModelCreator; the Axes / Chart are taken from the post_process hook)",
     "networkx spring_layout(seed=0) is deterministic; the model keeps a node's label for its layout position",
@@ -55,8 +65,10 @@ RULE = ("40% space scenarios: one of 12 space classes (4 mesa.space grids, 3 dis
         "agents never placed, a pool of 0-4 portrayal dict *objects* shared between agents (keys color/size/marker/zorder, colours as names and as RGB(A) tuples — none / all / mixed —, the optional "
         "alpha/edgecolors/linewidths under an all/none/some policy, unsupported keys), interleaved place/move/remove/dict-rewrite/"
         "re-portray ops and observations collect_agent_data / draw_space (Agg) / Altair _draw_grid / the solara components SpaceMatplotlib "
-        "and SpaceAltair / heap dump / property layer "
-        "(colormap or colour mode, explicit or automatic range, constant layers), including observations of the space without agents; "
+        "and SpaceAltair / heap dump / property layers "
+        "(1-3 named layers, requests of 1-4 entries in any order incl. names the space has no layer for; colour or colormap or neither; "
+        "alpha absent / 25 / 50 / 100 %; range automatic, one-sided, explicit incl. without extent, cutting the data and inverted; colour bar "
+        "absent / on / off; constant layers; float and int layers; drawn repeatedly; on non-grid classes), including observations of the space without agents; "
         "60% parameter scenarios: 1-3 generated __init__ signatures (instance parameter named self/this, positional-only, missing; "
         "positional-only, positional-or-keyword, *args, keyword-only, **kwargs under any name, defaults) each with 2-6 key sets "
         "(required names mostly present, extras, the instance's name, positional-only names) through _check_model_params, "
@@ -147,7 +159,15 @@ def tags(sc, obs):
             if w[0] in ("collect", "collectd") and "ign=-" not in o and o.startswith("ok"):
                 yield "branch:ignored-fields-warning"
             if w[0] == "drawlayer":
-                yield "layer:" + w[1] + ":" + o.split()[1] if o.startswith("ok") else "layer:err"
+                yield "layer:" + w[1] + ":" + (o.split()[3] if o.startswith("ok |") else o)
+            if w[0] == "drawlayers":
+                yield "layers:" + (o if o.startswith("err") else f"{o.count(' | ')}-of-{len(w) - 1}")
+                for t in w[1:]:
+                    f = t.split(":")
+                    yield "layer-mode:" + f[1].split("=")[0]
+                    yield "layer-range:" + ("auto" if f[3] == f[4] == "-" else "one-sided" if "-" in (f[3], f[4]) else
+                                            "no-extent" if f[3] == f[4] else "inverted" if int(f[4]) < int(f[3]) else "explicit")
+                    yield "layer-colorbar:" + f[5]
         ps = [l.split() for l in sc.lines if l.startswith("portray ")]
         refs = [p[2] for p in ps if p[2] != "-"]
         if len(refs) != len(set(refs)):
